@@ -306,6 +306,9 @@ def gen_template(rng, impl, n_brush=None, n_ent=None, numeric_vars=False, files=
             kv['goal'] = rand_name(rng)
         elif cls == 'prop_door_rotating':
             kv['axis'] = fmt_vec(rand_point(rng)) + ', ' + fmt_vec(rand_point(rng))
+            if rng.random() < 0.12:
+                # malformed VEC_AXIS (no comma): fixup_key raises ValueError in the middle of collapse_one (error path)
+                kv['axis'] = fmt_vec(rand_point(rng)) + ' ' + fmt_vec(rand_point(rng))
             kv['ajarangles'] = _ang_str(rng)
             kv['model'] = 'models/props_c17/door01_left.mdl'
         elif cls == 'func_instance':
